@@ -332,7 +332,13 @@ func (c *Catalogue) KeyLeaves() []*Type {
 // not addressable; named arrays; pointer to pointer; nested slices/maps) — part of every tier.
 func (c *Catalogue) Special() []*Type {
 	nrow := Named(20, "NRow", 0, Ar(2, Sl(B("int"))))
+	// recursion through a map: the generated function for the map type re-enters itself
+	recm := Named(21, "RecM", 0, nil)
+	recm.Elem = St(B("int"), M(B("string"), P(Ref(recm))))
+	recv := Named(22, "RecV", 0, nil)
+	recv.Elem = St(M(B("int"), Ref(recv)), Sl(B("string")))
 	return []*Type{
+		recm, P(recm), recv, M(B("string"), recv),
 		M(B("string"), Ar(2, Sl(B("int")))), M(B("int"), Ar(2, P(B("int")))), M(B("string"), Ar(2, M(B("string"), B("int")))),
 		M(B("string"), nrow), nrow, Sl(nrow), M(B("string"), Ar(2, B("int"))),
 		Sl(Ar(2, P(c.S0))), P(P(c.S0)), M(B("string"), Sl(Sl(B("int")))), Sl(M(B("string"), Sl(B("int")))),
